@@ -71,6 +71,16 @@ def gen(rng, tier):
         for r in sorted(rooms):
             yield "ser %s %d" % (t.txt(), r)
             yield "elser %s %d" % (t.txt(), r)
+    # --- the same serializer with its options (no header; octets left at the end of the buffer), and an element that is given a
+    # plain value after it had sub elements
+    for i in range(n_trees // 5):
+        t = rtree(rng, rng.randrange(0, 6))
+        need = len(t.enc())
+        for opt in (0, 1, 2, 3):
+            for r in sorted({need, need + rng.randrange(1, 300), max(0, need - rng.randrange(1, 6)), 4 + 65536}):
+                yield "wb %s %d %d" % (t.txt(), r, opt)
+        if t.kids is not None:
+            yield "reraw %s %s" % (t.txt(), hx(rbytes(rng, rng.choice([1, 2, 10, 255, 256, 300]))))
     # --- the 16-bit boundary at every depth: content 65531..65540 built from children
     for depth in range(0, 4):
         for total in ([65531, 65535, 65536, 65537, 65540] if tier == "quick" else range(65528, 65545)):
